@@ -38,7 +38,28 @@ KNOWN_OPS = MOVE_OPS | PRESERVE_OPS | EWHOM_OPS | JOIN_OPS | SCALE_OPS | COMPARE
 NO_FLOAT8 = {"aten.neg", "aten.relu", "aten.abs", "aten.cat", "aten.lt", "aten.gt", "aten.le", "aten.ge", "aten.eq", "aten.ne", "aten.mm", "aten.bmm"}
 
 
-def ctor_fields(repo: Repo, cls_name: str, call: ast.Call) -> Optional[Dict[str, ast.AST]]:
+class _StripClone(ast.NodeTransformer):
+    """x.clone() / torch.clone(x) -> x: a clone has the values, the dtype and the graph of its source; only the storage is new."""
+
+    def visit_Call(self, node):
+        self.generic_visit(node)
+        f = node.func
+        if isinstance(f, ast.Attribute) and f.attr == "clone" and not node.args and not node.keywords:
+            return f.value
+        if isinstance(f, ast.Attribute) and f.attr == "clone" and isinstance(f.value, ast.Name) and f.value.id == "torch" and len(node.args) == 1 and not node.keywords:
+            return node.args[0]
+        return node
+
+
+def ctor_fields(repo: Repo, cls_name: str, call: ast.Call, raw: bool = False) -> Optional[Dict[str, ast.AST]]:
+    """The constructor arguments of `call` by field.  Unless `raw`, clones are read as their source (`t._scale.clone()` is `t._scale` for every rule
+    about values, layouts and gradients); the rules about storage identity (who shares a scale or payload OBJECT with whom) ask for the raw fields."""
+    if not raw:
+        import copy as _copy
+        f = ctor_fields(repo, cls_name, call, raw=True)
+        if f is None:
+            return None
+        return {k: (ast.fix_missing_locations(_StripClone().visit(_copy.deepcopy(v))) if isinstance(v, ast.AST) else v) for k, v in f.items()}
     ci = repo.cls(cls_name)
     m = repo.method(ci, "__init__")
     if m is None:
